@@ -98,7 +98,7 @@ impl Check for HistCheck {
             out.class(c);
         }
         if let Some((ccfg, one_in)) = self.crash
-            && tape.cfg[9] % one_in == 0
+            && tape.cfg[9] % one_in == one_in - 1
             && (self.id != "C13" || m.stats.compactions_ok > 0)
         {
             let tier = if std::env::var("VERIF_TIER_INTERNAL").ok().as_deref() == Some("thorough") { Tier::Thorough } else { Tier::Quick };
